@@ -144,12 +144,17 @@ def extract(repo=None, verbose=False):
         with open(marker, "w") as fh:
             fh.write(json.dumps({"key": key, "extract_s": round(time.time() - t0, 2),
                                  "files": have}))
-        # keep the cache small: drop all but the 24 most recent fact sets (several checks may run concurrently on
+        # keep the cache small: drop all but the 48 most recent fact sets (several checks may run concurrently on
         # different trees; a reader that loses its set re-extracts, see load())
-        sets = sorted((d for d in glob.glob(os.path.join(cache_root, "*")) if os.path.isdir(d)),
-                      key=os.path.getmtime)
-        for old in sets[:-24]:
-            shutil.rmtree(old, ignore_errors=True)
+        def _mt(d):
+            try:
+                return os.path.getmtime(d)
+            except OSError:          # removed meanwhile by a concurrent run (battery workers hold different locks)
+                return 0.0
+        sets = sorted((d for d in glob.glob(os.path.join(cache_root, "*")) if os.path.isdir(d)), key=_mt)
+        for old in sets[:-48]:
+            if old != cdir:
+                shutil.rmtree(old, ignore_errors=True)
         return cdir, key, True
     finally:
         fcntl.flock(lock, fcntl.LOCK_UN)
